@@ -148,7 +148,7 @@ def h_procs_tessellate(cx, num_procs, nsurf=2):
             cx.check(k, b[k] == a[k], '%s differs: %s vs %s' % (k, str(b[k])[:80], str(a[k])[:80]))
 
 
-def h_procs_voxelize(cx, num_procs, sz):
+def h_procs_voxelize(cx, num_procs, sz, tol=None):
     """voxelize(num_procs=k) == voxelize() (worker pool modelled by core.SerialPool)"""
     VX = geo.M('voxelize')
     B = geo.M('BSpline')
@@ -161,7 +161,10 @@ def h_procs_voxelize(cx, num_procs, sz):
         s.knotvector_u = [0, 0, 1, 1]
         s.knotvector_v = [0, 0, 1, 1]
         s.sample_size = 3
-        return VX.voxelize(s, grid_size=sz) if np_ == 1 else VX.voxelize(s, grid_size=sz, num_procs=np_)
+        kw = {} if tol is None else {'tol': cx.const(tol)}
+        if np_ != 1:
+            kw['num_procs'] = np_
+        return VX.voxelize(s, grid_size=sz, **kw)
     (g1, f1), (g2, f2) = run(1), run(num_procs)
     cx.check('grid_size', len(g1) == sz[0] * sz[1] * sz[2] == len(f1))
     cx.eq('grid', [[list(c[0]), list(c[1])] for c in g2], [[list(c[0]), list(c[1])] for c in g1])
@@ -175,6 +178,8 @@ def instances(tier):
         out.append(inst('container tessellate num_procs=%d' % np_, h_procs_tessellate, timeout=900, num_procs=np_))
     if not quick:
         out.append(inst('container tessellate 1 surface num_procs=4', h_procs_tessellate, timeout=900, num_procs=4, nsurf=1))
+    out.append(inst('voxelize (2, 2, 2) padding 1/4 num_procs=2', h_procs_voxelize, timeout=1800, num_procs=2, sz=(2, 2, 2), tol=F(1, 4)))
+    out.append(inst('voxelize (3, 2, 2) padding 2/5 num_procs=4', h_procs_voxelize, timeout=1800, num_procs=4, sz=(3, 2, 2), tol=F(2, 5)))
     for np_, sz in ([(2, (2, 2, 2)), (4, (3, 2, 2)), (8, (3, 2, 2))] if quick else [(2, (2, 2, 2)), (4, (2, 2, 2)), (8, (2, 2, 2)), (2, (3, 2, 2)), (4, (3, 2, 2)), (8, (3, 2, 2)), (2, (3, 3, 3)), (4, (3, 3, 3))]):
         out.append(inst('voxelize %s num_procs=%d' % (sz, np_), h_procs_voxelize, timeout=1800, num_procs=np_, sz=sz))
 
